@@ -87,6 +87,7 @@ pub fn replay(path: &str) -> i32 {
         Some("client-session") => client_sm::replay_session(scn),
         Some("client-sm") => client_sm::replay(scn),
         Some("client-tie") => client_sm::replay_tie(scn),
+        Some("c08-tls") => tls::c08_tls_phase().violations_as_pairs(),
         Some("client-stream") => framing::replay_client_stream(scn),
         k => {
             eprintln!("unknown replay kind {k:?}");
